@@ -238,19 +238,29 @@ impl Oracle for C01 {
                         let mut visited_parent = false;
                         let mut within_reach = false;
                         let mut delivered_any = false;
+                        // the snapshot of the parent state is one of the `retention` most recent
+                        // ones only as long as the node has not applied more than that many commits
+                        // since it stood there: what counts is the highest epoch reached since
+                        // (a rollback to a state in between does not bring the snapshot back)
+                        let mut high = 0u64;
                         for r in w.history.iter().filter(|r| r.step.node == node) {
                             if r.pre_state.get(&g).map(|s| s.1 == pe.parent_state).unwrap_or(false) {
                                 visited_parent = true;
+                                high = pe.epoch;
+                            } else if let Some(s) = r.pre_state.get(&g) {
+                                high = high.max(s.0);
                             }
                             if matches!(&r.step.op, Op::Deliver { ev } if *ev == c) {
                                 delivered_any = true;
-                                let at = r.pre_state.get(&g).map(|s| s.0).unwrap_or(0);
-                                if visited_parent && at.saturating_sub(pe.epoch) <= retention {
+                                if visited_parent && high.saturating_sub(pe.epoch) <= retention {
                                     within_reach = true;
                                 }
                             }
                             if r.post_state.get(&g).map(|s| s.1 == pe.parent_state).unwrap_or(false) {
                                 visited_parent = true;
+                                high = pe.epoch;
+                            } else if let Some(s) = r.post_state.get(&g) {
+                                high = high.max(s.0);
                             }
                         }
                         exempt = delivered_any && !within_reach;
